@@ -150,7 +150,7 @@ Section SoftMap.
   Proof.
     destruct Hrest as (E1 & E2 & E3 & E4 & E5 & E7 & E8 & E9).
     pose proof D as [d_jkeys0 d_ukeys0 d_upos0 d_uorder0 d_jrange0 d_edges0 d_enodup0 d_jobs0 d_staged0 d_root0 d_gcontig0 d_gkeys0 d_jgroup0
-                     d_bfresh0 d_gbatch0 d_ancgrp0].
+                     d_bfresh0 d_gbatch0 d_ancgrp0 d_ufirst0].
     constructor.
     - unfold Kjobs, Kjobs_list. rewrite soft_map_jk. exact d_jkeys0.
     - rewrite E2. assumption.
@@ -181,6 +181,7 @@ Section SoftMap.
     - rewrite E1, E9. assumption.
     - rewrite E3. intros g Hg. unfold find_batch. rewrite E1. apply (d_gbatch0 g Hg).
     - rewrite E4. intros r Hr. unfold find_group. rewrite E3. apply (d_ancgrp0 r Hr).
+    - rewrite E2. assumption.
   Qed.
 End SoftMap.
 
